@@ -235,10 +235,19 @@ def render(case):
             prev_anchor = ctx.opened[-1][0]
         roots.append((rid, ctx.expect))
         out.append(text)
-    if block:
-        body = "".join("--- %s\n" % t for t in out)
-    else:
-        body = "".join(("--- " if i else "") + t + "\n" for i, t in enumerate(out))
+    # a third of the documents stand behind a directive line (a pure function of the text): anchors obey the same rules whatever
+    # %YAML version or %TAG handles a document declares
+    from vlib.runner import h64
+    body = ""
+    for i, t in enumerate(out):
+        hdr = ["", "", "", "", "%YAML 1.2\n", "%YAML 1.1\n", "%TAG !e! tag:e.org,2000:\n", "%YAML 1.2\n%TAG !e! tag:e.org,2000:\n"][h64(t + str(i)) % 8]
+        if hdr:
+            cl.add("directive:" + hdr.split()[0] + ("-1.2" if "1.2" in hdr else ""))
+            body += ("...\n" if i else "") + hdr + "--- " + t + "\n"
+        elif block or i:
+            body += "--- %s\n" % t
+        else:
+            body += t + "\n"
     if defect_kind:
         cl.add("defect:" + defect_kind)
     if deep_known:
@@ -604,7 +613,7 @@ def arms(tier):
             Arm("stateful-then-recursive", eval_case, stateful_then_recursive_cases, quick=3000, thorough=100000)]
 
 
-REQUIRED_CLASSES = ["yamlobject-instance", "delivery:text-stream-in-pieces", "delivery:byte-stream-in-pieces", "alias-to-container", "alias-to-finished-container", "alias-to-ancestor", "alias-to-scalar", "defect:undefined-alias", "defect:cross-document-alias",
+REQUIRED_CLASSES = ["directive:%YAML-1.2", "yamlobject-instance", "delivery:text-stream-in-pieces", "delivery:byte-stream-in-pieces", "alias-to-container", "alias-to-finished-container", "alias-to-ancestor", "alias-to-scalar", "defect:undefined-alias", "defect:cross-document-alias",
                     "defect:duplicate-anchor", "defect:container-as-own-key", "level:safe", "level:full", "level:unsafe", "docs=2", "instance-as-key"]
 
 
